@@ -1,9 +1,11 @@
 #!/bin/bash
-# usage: try_seed.sh <seeded/dir> <PROP> [tier]  -- apply the seeded change to /repo, run the check, undo.
+# usage: try_seed.sh <seeded/dir> <PROP> [tier]
+# Applies the seeded change to a scratch copy of /repo's HEAD (outside /repo and /verif), runs the check with
+# PYVC_SRC pointing at it, removes the copy. (Equivalent to git -C /repo apply / checkout, without touching /repo.)
 D=$1; P=$2; T=${3:-quick}
-cd /repo || exit 2
-if ! git apply --check $D/patch.diff 2>/dev/null; then echo "PATCH-DOES-NOT-APPLY $D (rebase it onto /repo HEAD)"; exit 2; fi
-git apply $D/patch.diff
-cd /verif && ./check $P --tier $T 2>/dev/null | grep -E "VIOLATION|KNOWN|tier=" ; RC=${PIPESTATUS[0]}
-git -C /repo checkout -- .
+W=$(mktemp -d /tmp/mutant.XXXXXX)
+git -C /repo archive HEAD | tar -x -C $W
+if ! (cd $W && git apply $D/patch.diff 2>/dev/null); then echo "PATCH-DOES-NOT-APPLY $D (rebase it onto /repo HEAD)"; rm -rf $W; exit 2; fi
+cd /verif && PYVC_SRC=$W PYVC_EVIDENCE_DIR=$W/evidence ./check $P --tier $T 2>/dev/null | grep -E "VIOLATION|KNOWN|tier=" | sed "s#$W#<scratch>#g"; RC=${PIPESTATUS[0]}
+rm -rf $W
 echo "exit=$RC"
